@@ -4,7 +4,7 @@
    bytes = list N; pver = negotiated protocol version; ebs = the configured excessive block size
    (maxMessagePayload = max_message_payload ebs); net = the network magic. *)
 From Coq Require Import NArith ZArith List Bool.
-From BHS Require Import Sha256 WireBase WireBaseProofs WireMsg WireMsgProofs WireFrame WireSpec WireSpecProofs WireFrameProofs.
+From BHS Require Import Sha256 WireBase WireBaseProofs WireMsg WireMsgProofs WireFrame WireSpec WireSpecProofs WireFrameProofs WireLenProofs.
 Import ListNotations.
 Open Scope N_scope.
 
@@ -40,6 +40,21 @@ Theorem C14_frame_roundtrip : forall pver net ebs m fr rest,
   write_message pver net ebs m = Ok fr ->
   read_message pver net ebs (fr ++ rest) = FOk m (enc_payload pver m) rest.
 Proof. exact frame_roundtrip. Qed.
+
+(* a well-formed message never exceeds the MaxPayloadLength of its type (reject: its limit is the global one) *)
+Theorem C14_payload_len_le_max : forall pver mmp ebs m,
+  wf_msg pver mmp m = true -> kind_of m <> KReject ->
+  len (enc_payload pver m) <= max_payload (kind_of m) pver ebs.
+Proof. exact payload_len_le_max. Qed.
+
+(* hence WriteMessage does not refuse it, and write-then-read returns it, whenever the global maximum is
+   not below the type's limit (holds for cmd/main.go's limits: WireLenProofs.write_ok_example) *)
+Theorem C14_frame_roundtrip_total : forall pver net ebs m rest,
+  net < 2 ^ 32 -> wf_msg pver (max_message_payload ebs) m = true -> kind_of m <> KReject ->
+  max_payload (kind_of m) pver ebs <= max_message_payload ebs ->
+  exists fr, write_message pver net ebs m = Ok fr /\
+             read_message pver net ebs (fr ++ rest) = FOk m (enc_payload pver m) rest.
+Proof. exact frame_roundtrip_total. Qed.
 
 (* ---- rejection, for every byte string ---- *)
 Theorem C14_must_reject : forall pver net ebs bs,
@@ -82,29 +97,23 @@ Theorem C14_count_rejected : forall pver mmp k bs,
 Proof. exact count_rejected. Qed.
 
 (* ---- allocation ----
-   Full statement: forall pver ebs k bs, alloc_payload pver (max_message_payload ebs) k bs <= max_payload k pver ebs
-   (what a payload decoder asks make() for before reading the elements never exceeds the type's
-   MaxPayloadLength).  It is FALSE for version (C14_alloc_bounded_version_refuted: genuine defect,
-   finding C14-version-useragent-alloc); proved for every other kind of the table: *)
-Theorem C14_alloc_bounded_partial : forall pver ebs k bs,
-  k <> KVersion -> (k = KAddr -> MultipleAddressVersion <= pver) ->
+   What a payload decoder asks make() for before reading the elements never exceeds the
+   MaxPayloadLength of its type: all kinds of the table, every byte string.  Hypothesis: addr only for
+   the protocol versions the service negotiates (>= MultipleAddressVersion = 209; below it the decoder
+   still accepts 1000 entries although the type's limit is one address: WireSpecProofs.alloc_addr_old_pver).
+   History: before fix ad1f9ac (/repo) this was refuted for version (the user agent was read by
+   ReadVarString, bounded only by maxMessagePayload; an 85-byte payload requested 256 MiB) and the
+   theorem was C14_alloc_bounded_partial + C14_alloc_bounded_version_refuted; the witness stays in
+   corpus/C14 and WireSpecProofs.version_alloc_witness_refused shows it is refused now. *)
+Theorem C14_alloc_bounded : forall pver ebs k bs,
+  (k = KAddr -> MultipleAddressVersion <= pver) ->
   alloc_payload pver (max_message_payload ebs) k bs <= max_payload k pver ebs.
 Proof. exact alloc_bounded. Qed.
 
-Theorem C14_alloc_version_partial : forall pver ebs bs,
-  alloc_payload pver (max_message_payload ebs) KVersion bs <= max_message_payload ebs.
-Proof. exact alloc_version_partial. Qed.
-
-Theorem C14_alloc_bounded_version_refuted :
-  max_payload KVersion 70013 128000000 <
-  alloc_payload 70013 (max_message_payload 128000000) KVersion version_alloc_witness.
-Proof. exact alloc_bounded_version_refuted. Qed.
-
 (* every buffer ReadMessage requests (payload buffer, discard chunk, decoder requests) stays within
-   max(10 KiB, MaxPayloadLength of the frame's type), for frames of any command but version *)
-Theorem C14_alloc_frame_bounded_partial : forall pver net ebs bs,
+   max(10 KiB, MaxPayloadLength of the frame's type), for every byte string *)
+Theorem C14_alloc_frame_bounded : forall pver net ebs bs,
   MultipleAddressVersion <= pver ->
-  (24 <= len bs -> known_cmd (hdr_cmd bs) <> Some KVersion) ->
   alloc_frame pver net ebs bs <= alloc_limit pver ebs bs.
 Proof. exact alloc_frame_bounded. Qed.
 
@@ -116,6 +125,8 @@ Print Assumptions C14_decode_encode.
 Print Assumptions C14_reencode.
 Print Assumptions C14_reencode_canonical.
 Print Assumptions C14_frame_roundtrip.
+Print Assumptions C14_payload_len_le_max.
+Print Assumptions C14_frame_roundtrip_total.
 Print Assumptions C14_must_reject.
 Print Assumptions C14_reject_oversize.
 Print Assumptions C14_reject_wrong_magic.
@@ -123,8 +134,6 @@ Print Assumptions C14_reject_unknown_command.
 Print Assumptions C14_reject_type_oversize.
 Print Assumptions C14_reject_bad_checksum.
 Print Assumptions C14_count_rejected.
-Print Assumptions C14_alloc_bounded_partial.
-Print Assumptions C14_alloc_version_partial.
-Print Assumptions C14_alloc_bounded_version_refuted.
-Print Assumptions C14_alloc_frame_bounded_partial.
+Print Assumptions C14_alloc_bounded.
+Print Assumptions C14_alloc_frame_bounded.
 Print Assumptions C14_sha256_length.
